@@ -141,7 +141,7 @@ func (m *UnsubscribeMessage) Decode(src []byte) (int, error) {
 		}
 
 		m.topics = append(m.topics, t)
-		remlen = remlen - n - 1
+		remlen = remlen - n
 	}
 
 	if len(m.topics) == 0 {
